@@ -179,8 +179,11 @@ impl Monitor for C14 {
             if v.volatility_accumulator > c.max_volatility_accumulator {
                 fail(acc, "stored_accumulator_above_max", format!("stored accumulator {} > max {}", v.volatility_accumulator, c.max_volatility_accumulator));
             }
-            let g_end = fdiv(tick_index_from_sqrt_price(&post.sqrt_price), size);
-            let allowed: Vec<u32> = [g_end - 1, g_end, g_end + 1].iter().map(|g| acc_of(vref, gref, *g, c.max_volatility_accumulator)).collect();
+            // "the tick group where the swap ended (or the adjacent group in the trade direction)": a b-to-a swap
+            // that stops exactly on a group boundary ended in the group below the boundary
+            let g_end = group_of(post.sqrt_price, begin.a_to_b, size, true);
+            let ahead = if begin.a_to_b { g_end - 1 } else { g_end + 1 };
+            let allowed: Vec<u32> = [g_end, ahead].iter().map(|g| acc_of(vref, gref, *g, c.max_volatility_accumulator)).collect();
             if !allowed.contains(&v.volatility_accumulator) {
                 fail(acc, "stored_accumulator", format!("stored accumulator {} but the swap ended in tick group {g_end} (reference group {gref}, vol ref {vref}): expected one of {:?}", v.volatility_accumulator, allowed));
             }
